@@ -23,18 +23,20 @@ var durationType = reflect.TypeOf(time.Duration(0))
 // non-empty, otherwise it is also UTC but the caller's interpretation may
 // treat it as naive.
 func timestampToTime(v int64, ts *arrow.TimestampType) time.Time {
-	var d time.Duration
+	// Built from seconds/sub-second parts rather than a time.Duration offset:
+	// a Duration is int64 nanoseconds, so v*unit overflows for instants more
+	// than ~292 years from the epoch even though the wire type holds them.
 	switch ts.Unit {
 	case arrow.Second:
-		d = time.Duration(v) * time.Second
+		return time.Unix(v, 0).UTC()
 	case arrow.Millisecond:
-		d = time.Duration(v) * time.Millisecond
+		return time.UnixMilli(v).UTC()
 	case arrow.Microsecond:
-		d = time.Duration(v) * time.Microsecond
+		return time.UnixMicro(v).UTC()
 	case arrow.Nanosecond:
-		d = time.Duration(v)
+		return time.Unix(0, v).UTC()
 	}
-	return time.Unix(0, 0).UTC().Add(d)
+	return time.Unix(0, 0).UTC()
 }
 
 func setTimeField(field reflect.Value, fieldType reflect.Type, isPtr bool, val time.Time) {
